@@ -3,15 +3,15 @@ import astload
 from core import Fn, Target
 import hooks
 import nvwp
-from cxx2c import unwrap, strip_cv, qual
+from cxx2c import unwrap, strip_cv, qual, Unsupported
 
 H = 'specs/C04/program.h'
 VAL = 'struct nv_val'
 TYPES = [(r'^nano::program::solver_state_t$', 'struct nv_pstate'),
          (r'^nano::program::solver_t::program_t$', 'struct nv_program'),
          (r'^nano::program::solver_t$', 'struct nv_solver'),
-         (r'^nano::logger_t$', 'struct nv_logger'),
-         (r'^nano::solver_status$', 'int32_t'),
+         (r'^nano::logger_t$', 'struct nv_logger'), (r'reducer_t$', 'struct nv_reducer'),
+         (r'^nano::solver_status$', 'int32_t'), (r'^Eigen::ComputationInfo$', 'int32_t'),
          # every matrix / vector / Eigen expression / decomposition is an opaque value identity
          (r'^nano::(vector_t|matrix_t)$|^nano::tensor_t<nano::tensor_vector_storage_t, double, [12]>$|^Eigen::.*>$', VAL)]
 # Eigen / tensor operators -> uninterpreted algebra over value identities
@@ -20,7 +20,7 @@ CALLS = [(r'^operator\*\|[^|]*\|double(\||$)', 'nv_e_scale({0}, {1})'),
          (r'^operator/\|[^|]*\|double(\||$)', 'nv_e_sdiv({0}, {1})'),
          (r'^operator/\|', 'nv_e_div({0}, {1})'),
          (r'^operator\+\|', 'nv_e_add({0}, {1})'),
-         (r'^operator-\|[^|]*\(\) const\|', 'nv_e_neg({0})'),
+         (r'^operator-\|[^|]*\(\) const\|', 'nv_e_neg({0})'), (r'^operator-\|[^|]*\|double(\||$)', 'nv_e_ssub({0}, {1})'),
          (r'^operator-\|', 'nv_e_sub({0}, {1})'),
          (r'^operator\+=\|', '({0} = nv_e_add({0}, {1}))'),
          (r'^operator=\|', '({0} = nv_e_same({1}))'),
@@ -29,9 +29,10 @@ CALLS = [(r'^operator\*\|[^|]*\|double(\||$)', 'nv_e_scale({0}, {1})'),
          (r'^max\|double \(initializer_list<double>\)', '@fold:nv_fmax'),
          (r'^min\|const double &', 'nv_fmin({0}, {1})'), (r'^max\|const double &', 'nv_fmax({0}, {1})'), (r'^max\|double \(\) noexcept', 'nv_dbl_max()'),
          (r'^done\|', 'solver_done'),
-         (r'^make_smax\|', 'make_smax'),
+         (r'^make_smax\|', 'make_smax'), (r'^move\|', '{0}'),
+         (r'^ctor\|.*reducer_t\|void \(nano::matrix_t &', 'nv_reduce({&0}, {&1})'),
          (r'^zero\|', 'nv_e_zero({0})'), (r'^constant\|', 'nv_e_nan({0})'), (r'^operator\(\)\|', 'nv_vec_at({&0}, {1})'),
-         (r'^ctor\|nano::tensor_t<nano::tensor_vector_storage_t, double, 1>\|void \(long', 'nv_fresh()'),
+         (r'^ctor\|nano::tensor_t<nano::tensor_vector_storage_t, double, [12]>\|void \((long|nano::tensor_size_t)', 'nv_fresh()'),
          (r'^ctor\|nano::tensor_t<nano::tensor_vector_storage_t, double, [12]>\|void \(const Eigen::', 'nv_e_same({0})'),
          (r'^ctor\|nano::program::solver_state_t\|void \((const )?(long|nano::tensor_size_t)', 'pstate_ctor_value({0}, {1}, {2})')]
 MEMBERS = [(r'^(info|warn|error)\|nano::logger_t', '@drop'),
@@ -39,17 +40,19 @@ MEMBERS = [(r'^(info|warn|error)\|nano::logger_t', '@drop'),
            (r'^n\|nano::program::solver_t::program_t', 'nv_program_n'), (r'^p\|nano::program::solver_t::program_t', 'nv_program_p'),
            (r'^m\|nano::program::solver_t::program_t', 'nv_program_m'),
            (r'^solve\|nano::program::solver_t::program_t', 'nv_program_solve({self})'),
-           (r'^update\|nano::program::solver_t::program_t', '({4} = nv_program_updated({4}))'),
+           (r'^update\|nano::program::solver_t::program_t', '({4} = nv_program_updated({self}, {4}, {0}, {1}, {2}))'),
            (r'^update\|nano::program::solver_state_t', '({obj}.m_kkt = nv_kkt_value())'),
            (r'^residual\|nano::program::solver_state_t', 'nv_pstate_residual'),
            (r'^(array|matrix|vector|transpose|asDiagonal)\|', 'nv_e_same({obj})'),
            (r'^lpNorm\|', 'nv_e_norm2({obj})'),
            (r'^maxCoeff\|', 'nv_e_maxcoeff({obj})'),
-           (r'^(rows|size)\|', 'nv_e_rows({obj})'),
+           (r'^size\|.*(double, 2>|tensor_base_t<double, 2)', 'nv_e_size({obj})'), (r'^(rows|size)\|', 'nv_e_rows({obj})'), (r'^dot\|', 'nv_e_dot({obj}, {0})'),
+           (r'^Q\|nano::program::solver_t::program_t', '{*self}.m_Q'),
            (r'^all_finite\|', 'nv_e_all_finite({obj})'),
            (r'^isApprox\|', 'nv_e_isapprox({obj}, {0}, {1})'),
            (r'^segment\|', 'nv_e_segment({obj}, {0}, {1})'),
-           (r'^rcond\|', '@nondet'), (r'^isPositive\|', '@nondet')]
+           (r'^rcond\|', '@nondet'), (r'^isPositive\|', '@nondet'),
+           (r'^info\|Eigen::LDLT', '@nondet')]      # the factorisation's own status: says nothing about the residual of the solution
 
 
 def _opcall(n, name):
@@ -111,7 +114,93 @@ def advance_hook(P, n):
     return f'({x} = nv_advanced({x}, {P.expr(sc[0])}, {P.expr(sc[1])}))'
 
 
-HOOKS = [hooks.param_hook(), strict_test_hook, advance_hook]
+WHOLE_VIEWS = ('array', 'matrix', 'vector')
+PART_VIEWS = ('block', 'segment', 'row', 'col', 'head', 'tail', 'transpose')
+
+
+def view_assign_hook(P, n):
+    """assignment THROUGH a view: `X.array() /= s`, `M.block(..) = E`, `M.block(..).array() = 0.0` write into the object X / M.
+    Whole views with a scalar `/=`, `*=` give the exact uninterpreted value (X / s, s * X); anything else makes the object an
+    opaque function of its old value and the right-hand side (havoc that still is a function: nv_e_written)."""
+    if n.get('kind') != 'CXXOperatorCallExpr':
+        return None
+    rd = unwrap(n['inner'][0]).get('referencedDecl', {})
+    op = rd.get('name', '')
+    if op not in ('operator=', 'operator+=', 'operator-=', 'operator*=', 'operator/=') or len(n['inner']) != 3:
+        return None
+    lhs, rhs = unwrap(n['inner'][1]), n['inner'][2]
+    views = []
+    while lhs.get('kind') == 'CXXMemberCallExpr' and lhs['inner'][0].get('kind') == 'MemberExpr' and lhs['inner'][0].get('name') in WHOLE_VIEWS + PART_VIEWS:
+        views.append(lhs['inner'][0]['name'])
+        lhs = unwrap(lhs['inner'][0]['inner'][0])
+    if not views:
+        return None
+    if lhs.get('valueCategory') != 'lvalue' or lhs.get('kind') not in ('DeclRefExpr', 'MemberExpr'):
+        raise Unsupported('assignment through a view of something that is not a named object')
+    obj = P.expr(lhs)
+    whole = all(v in WHOLE_VIEWS for v in views)
+    P.note(f'write through view .{"().".join(reversed(views))}() {op[8:]}')
+    if whole and _is_double(rhs) and op == 'operator/=':
+        return f'({obj} = nv_e_divs({obj}, {P.expr(rhs)}))'
+    if whole and _is_double(rhs) and op == 'operator*=':
+        return f'({obj} = nv_e_scale({P.expr(rhs)}, {obj}))'
+    if _is_double(rhs):
+        return f'({obj} = nv_e_written_s({obj}, {P.expr(rhs)}))'
+    return f'({obj} = nv_e_written({obj}, {P.expr(rhs)}))'
+
+
+_normalize_decl = []
+
+
+def normalize_call_hook(P, n):
+    """::normalize(A, b[, min_norm]) -> normalize(&A, &b, min_norm): an omitted min_norm is printed by clang as a bare
+    CXXDefaultArgExpr; its value is read from the default of normalize's own parameter in the current source"""
+    if n.get('kind') != 'CallExpr':
+        return None
+    rd = unwrap(n['inner'][0]).get('referencedDecl', {})
+    if rd.get('name') != 'normalize' or len(n['inner']) != 4:
+        return None
+    if not _normalize_decl:
+        _normalize_decl.append(astload.find_definition(TU, 'normalize', 'normalize', lambda d: len(astload.param_types(d)) == 3))
+    a = n['inner'][1:]
+    u = a[2]
+    while u.get('kind') in ('ExprWithCleanups', 'MaterializeTemporaryExpr') and u.get('inner'):
+        u = u['inner'][0]
+    if u.get('kind') == 'CXXDefaultArgExpr':
+        prm = [c for c in _normalize_decl[0]['inner'] if c.get('kind') == 'ParmVarDecl'][2]
+        init = [c for c in prm.get('inner', []) if c.get('kind') != 'FullComment']
+        if not init:
+            raise Unsupported('normalize: default of min_norm is not in the dump')
+        m = P.expr(init[0])
+    else:
+        m = P.expr(a[2])
+    P.note('::normalize(A, b, min_norm)')
+    return f'normalize({P.addr(a[0])}, {P.addr(a[1])}, {m})'
+
+
+def update_along_hook(P, n):
+    """program.update(X + sx * DX, U + su * DU, V + sv * DV, miu, state) -> state = nv_program_updated_along(...): the same values as
+    the generic algebra, plus the ghost provenance of the trial point.  Any other shape falls through to the generic mapping."""
+    if n.get('kind') != 'CXXMemberCallExpr' or n['inner'][0].get('kind') != 'MemberExpr' or n['inner'][0].get('name') != 'update':
+        return None
+    me = n['inner'][0]
+    if 'solver_t::program_t' not in qual(me['inner'][0]['type']) or len(n['inner']) != 6:
+        return None
+    parts = []
+    for a in n['inner'][1:4]:
+        add = _opcall(a, 'operator+')
+        sc = _scaled(add[1]) if add is not None and len(add) == 2 else None
+        if sc is None:
+            return None
+        parts += [P.expr(add[0]), P.expr(sc[0]), P.expr(sc[1])]
+    obj = me['inner'][0]
+    prog = P.expr(obj) if me.get('isArrow') else P.addr(obj)
+    st = P.expr(n['inner'][5])
+    P.note('program.update(X + s * DX, U + s * DU, V + s * DV, ..) -> nv_program_updated_along')
+    return f'({st} = nv_program_updated_along({prog}, {st}, {", ".join(parts)}))'
+
+
+HOOKS = [hooks.param_hook(), strict_test_hook, advance_hook, view_assign_hook, normalize_call_hook, update_along_hook]
 FEAS_ABS = [(r'^feasible\|nano::program::solver_t::program_t', 'nv_program_feasible_abs')]
 COMMON = dict(types=TYPES, calls=CALLS, members=MEMBERS, hooks=HOOKS)
 TU = 'src/program/solver.cpp'
@@ -174,6 +263,11 @@ def build(tier):
     swi = lambda cname='solve_with_inequality': Fn(cname, TU, 'solve_with_inequality', flt=FLT, self_struct='struct nv_solver',
                      **dict(COMMON, calls=[(r'^make_smax\|', 'nv_make_smax_any')] + CALLS))
     swo = lambda: Fn('solve_without_inequality', TU, 'solve_without_inequality', flt=FLT, self_struct='struct nv_solver', **COMMON)
+    norm = lambda: Fn('normalize', TU, 'normalize', flt='normalize', select=lambda d: len(astload.param_types(d)) == 3, **COMMON)
+    pctor = lambda: Fn('program_ctor', TU, 'program_t', flt=FLT, select=lambda d: len(astload.param_types(d)) == 6,
+                       kinds=('CXXConstructorDecl',), self_struct='struct nv_program', **COMMON)
+    upd = lambda cname, head: Fn(cname, TU, 'update', flt=FLT, self_struct='struct nv_program',
+                                 select=lambda d: (astload.template_args(d) or [''])[0].startswith(head), **COMMON)
     done_abs = lambda: Fn('solver_done', TU, 'done', flt=FLT, **dict(COMMON, members=FEAS_ABS + MEMBERS))
     targets = [
         Target('program_feasible', [feas()], H),
@@ -182,10 +276,16 @@ def build(tier):
         Target('solver_done_nan', [Fn('solver_done_nan', TU, 'done', flt=FLT, **COMMON), feas()], H, replace=['program_feasible'],
                cbmc_flags=['--sat-solver', 'cadical']),
         Target('pstate_ctor', [ctor()], H),
+        # the scaling protocol: what the data is divided by, and what the reported objective is multiplied back with
+        Target('normalize', [norm()], H),
+        Target('program_ctor', [pctor(), norm()], H, replace=['normalize']),
+        Target('program_update_vec', [upd('program_update_vec', 'nano::tensor_t')], H),
+        Target('program_update_expr', [upd('program_update_expr', 'Eigen::CwiseBinaryOp')], H),
         Target('make_smax', [smax()], H),
         # done() is inlined (its own contract is target solver_done); inside it program_t::feasible is the abstract function
         Target('solve_with_inequality', [swi(), done_abs(), ctor()], H),
         Target('solve_with_inequality_adv', [swi('solve_with_inequality_adv'), done_abs(), ctor()], H),
+        Target('solve_with_inequality_res', [swi('solve_with_inequality_res'), done_abs(), ctor()], H),
         Target('solve_without_inequality', [swo(), ctor()], H),
     ]
     return {
@@ -207,27 +307,46 @@ def build(tier):
             'solver_state_t(n, m, p): status max_iters, zero iterations, all scalars NaN / 0 as declared (default member initialisers read from state.h)',
             '::make_smax: every coefficient read in bounds (given its own assert u.size() == du.size()), loop terminates, result <= 1 and never NaN, '
             'result >= 0 when every coefficient of u is > 0',
+            '::normalize(A, b, min_norm): the returned factor is max(min_norm, |A|, |b|) >= min_norm and BOTH A and b are divided by exactly '
+            'that factor; program_t(Q, c, A, b, G, h): m_mufx is the factor (Q, c) were divided by (floor 1e-3 = the default read from the '
+            'source), (A, b) after the removal of dependent rows and (G, h) are each divided by their own common factor',
+            'program_t::update (both instantiations): m_fx == (c.x, or 0.5 x.Qx + c.x when there is a Q), evaluated AT the x passed in, '
+            'multiplied back by exactly m_mufx (uninterpreted float operations: a data-flow identity); only m_fx, m_eta, m_rdual, m_rprim, '
+            'm_rcent are written',
+            'solve_without_inequality: the residual fields / fx of the returned state are those of the returned (x, u, v)',
+            'solve_with_inequality_res: converged => the residual fields done() certified and the reported fx were computed by '
+            'program_t::update (a) at the returned (x, u, v), or (b) only when the line search of the FINAL iteration was exhausted '
+            '(max_lsearch_iters consecutive trials) at the last trial point (x + s dx, u + s du, v + s dv), one common s, of that same line '
+            'search started from the returned (x, u, v); a point of an earlier iteration, an unrelated point, or fields not recomputed after '
+            '(x, u, v) moved are refuted',
             '::make_smax over the reals (SMT): for u > 0 componentwise the result is in (0, 1] and u_g + result * du_g >= 0 at every index g; '
             'coefficient reads in bounds; loop variant',
         ],
         'not_decided': [
             'all numeric tolerances of the property (1e-6 (1+|b|), objective gap vs f*), correctness of infeasible / unbounded detection, '
             'invariance under restatement: they depend on LDLT numerics',
-            'that the residual fields were computed at the returned m_x: deliberately not demanded (on the max_lsearch_iters exit of stage 2 they '
-            'may belong to the last trial point; the property\'s 100x allowance covers that)',
+            'how close the last trial point of an exhausted final line search is to the returned point (s <= s_tested * beta^max_lsearch_iters): '
+            'numeric, not decided (the property tolerates 1e-6; native scenario `stale`: bitwise staleness in ~8% of converged runs, worst '
+            'relative fx difference 7e-12 over 5.6M random programs)',
             'make_smax in IEEE arithmetic: result > 0 (the quotient -u_i / du_i can underflow to +0; proved over the reals only)',
             'the size precondition of make_smax at its call site in solve_with_inequality (u and du both have m coefficients) needs Eigen size '
             'reasoning; there make_smax is an arbitrary side-effect-free double',
-            'program_t::update / program_t::solve / solver_state_t::update / solver_state_t::residual bodies (Eigen algebra): havoc of what they assign',
+            'program_t::solve / solver_state_t::update / solver_state_t::residual bodies (Eigen algebra): havoc of what they assign; of '
+            'program_t::update only the objective and the frame are decided, the residual formulas (eta, rdual, rprim, rcent) are not',
+            'reduce() (removal of dependent equality rows, src/program/util.cpp): havoc of (A, b)',
             'solver_t::solve dispatch (program_t construction, reduction of dependent equalities, normalisation)',
         ],
         'assumptions': [
             'Eigen / tensor operators are pure functions of their operands\' values (uninterpreted algebra over value identities); views (array(), '
             'matrix(), vector()) and copies / assignments denote the same value',
             'lpNorm<2>() >= 0 or NaN; rows()/size() >= 0',
-            'program_t::update(x, u, v, miu, state) writes only state.m_fx, m_eta, m_rdual, m_rprim, m_rcent; program_t::solve writes only the mutable '
-            'buffers m_lmat, m_lvec, m_ldlt, m_lsol; solver_state_t::update writes only m_kkt; solver_state_t::residual is a function of '
-            '(m_rdual, m_rcent, m_rprim) (read off src/program/solver.cpp:121-186, state.cpp:18-63; arguments of update/solve are not translated)',
+            'program_t::solve writes only the mutable buffers m_lmat, m_lvec, m_ldlt, m_lsol; solver_state_t::update writes only m_kkt; '
+            'solver_state_t::residual is a function of (m_rdual, m_rcent, m_rprim) (read off src/program/solver.cpp:121-145, state.cpp:18-63; '
+            'arguments of solve are not translated)',
+            'inside solve_with/without_inequality program_t::update is its contract (targets program_update_vec / _expr): fx = objn(Q, c, x) * m_mufx '
+            'with objn ONE uninterpreted symbol, the other residual fields arbitrary, ghost record of the (x, u, v) it was called with',
+            'Eigen::LDLT::info() is an arbitrary status (it says nothing about the residual of the computed solution)',
+            'a write through a partial view (block / segment) makes the object an uninterpreted function of its old value and the written value',
             'program_t::feasible is a deterministic function of (A, b, G, h, state.m_x): implied by the contract proved in target program_feasible, '
             'used as one uninterpreted symbol inside solve_with_inequality',
             'parameters lie in their registered domains (solver.cpp:207-214): 0 < s0 <= 1, 1 < miu <= 1e6, 0 < alpha < 1, 0 < beta < 1, '
@@ -244,16 +363,27 @@ def build(tier):
 
 
 def replay(rp):
-    """solver_done_nan: the counterexample (eta, |rdual|, |rprim|, epsilon) is put into a real solver_state_t (one-coefficient
-    residual vectors) of a feasible one-variable program and the REAL solver_t::done is run (src/program/solver.cpp included
-    verbatim by the driver to reach the private function); the driver evaluates converged => all three below epsilon."""
+    """native scenarios of replay/C04_replay.cpp (src/program/solver.cpp is included verbatim by the driver to reach the private
+    functions; everything else is the library built from the working tree), chosen by the refuted target:
+      solver_done*               the verifier's (eta, |rdual|, |rprim|, epsilon) in a real state -> the REAL solver_t::done
+      normalize / program_*      LP / QP with objective norm below the 1e-3 floor: reported fx against the objective at x
+      solve_without_inequality   contradicting equalities, no inequalities: converged must not be reported
+      solve_with_inequality_res  small QPs: residual fields of a converged state recomputed at the returned (x, u, v)"""
     import math
     import replaylib
     out = {'reproduced': False, 'runs': []}
-    if rp['target'] != 'solver_done_nan':
+    tgt = rp['target']
+    scen = {'normalize': ['scale'], 'program_ctor': ['scale'], 'program_update_vec': ['scale'], 'program_update_expr': ['scale'],
+            'solve_without_inequality': ['noineq'], 'solve_with_inequality_res': ['stale', '200']}
+    if not tgt.startswith('solver_done') and tgt not in scen:
         out['note'] = 'no native driver for this target: the replay file carries the verifier output only'
         return out
     exe = replaylib.build_with_library('replay/C04_replay.cpp', 'C04_replay')
+    if tgt in scen:
+        rc, so, se = replaylib.run_driver(exe, scen[tgt], timeout=600)
+        out['runs'].append({'scenario': scen[tgt], 'exit': rc, 'output': so.strip()[-2500:]})
+        out['reproduced'] = rc == 1
+        return out
     cands = []
     for fo in rp['failed_obligations']:
         ce = fo.get('counterexample') or {}
@@ -262,12 +392,12 @@ def replay(rp):
         norms = [v for k, v in ce.items() if 'return_value_nv_e_norm2' in k]
         if isinstance(eps, float) and isinstance(eta, float) and len(norms) >= 2:
             cands.append([eta, norms[-2], norms[-1], eps])
-    cands += [[0.0, float('nan'), 0.0, 1e-10], [0.0, 0.0, float('nan'), 1e-10]]
+    cands += [[0.0, float('nan'), 0.0, 1e-10], [0.0, 0.0, float('nan'), 1e-10], [1.0, 0.0, 0.0, 1e-10], [0.0, 1.0, 0.0, 1e-10], [0.0, 0.0, 1.0, 1e-10]]
     for c in cands:
         # a 1-coefficient residual vector has norm |value|: negative "norms" cannot occur, NaN / non-negative ones can
         if any(isinstance(x, float) and not math.isnan(x) and x < 0 for x in c[1:3]):
             continue
-        rc, so, se = replaylib.run_driver(exe, [repr(float(x)) for x in c])
+        rc, so, se = replaylib.run_driver(exe, ['done'] + [repr(float(x)) for x in c])
         out['runs'].append({'eta_rdual_rprim_epsilon': [repr(x) for x in c], 'exit': rc, 'output': so.strip()[:600]})
         if rc == 1:
             out['reproduced'] = True
